@@ -636,6 +636,36 @@ def check_sqlstr(R, drv, tier):
                     break
             if not reproduced:
                 R.engine_error(f"ENCODER-MISMATCH K-sqlstr: the model text {exact!r} ({e.kind} path) does not reproduce through prqlc::compile + SQLite")
+    # translator validation on concrete points: the real compiler + SQLite against the reference reader used in the queries
+    Q1 = chr(39)
+    probes = ["", "a", "it" + Q1 + "s", Q1 * 2, "a" + Q1 * 2 + "b", "\\", "\\" + Q1, "a\\" + Q1 + "b", Q1, Q1 * 4, "x" + Q1 + "y" + Q1 + "z", "\\\\", "-- c", "/* c */",
+              "a\nb", "café", "世界", Q1 + ";--", "\\" + Q1 * 2, Q1 + "\\" + Q1]
+    nval = 0
+    for txt in probes:
+        prog = "from t\nselect {x = " + prql_literal(txt) + "}\n"
+        r = drv.compile(prog, "sql.sqlite")
+        sql = (r.get("sql") or "").strip()
+        m = re.match(r"^SELECT (.*) AS x FROM t$", sql, re.S)
+        if not (r.get("ok") and m):
+            R.engine_error(f"K-sqlstr self-test: probe {txt!r} does not compile to the expected shape: {str(r)[:160]}")
+            continue
+        try:
+            con = sqlite3.connect(":memory:")
+            con.execute("create table t(a)")
+            con.execute("insert into t values (1)")
+            got = con.execute(sql).fetchall()
+        except Exception as ex:
+            got = str(ex)
+        ref = py_reads_back(m.group(1))
+        if got == [(txt,)] and ref == txt:
+            nval += 1
+        elif (got == [(txt,)]) != (ref == txt):
+            R.engine_error(f"ENCODER-MISMATCH K-sqlstr self-test: for {txt!r} the reference reader gives {ref!r} on {m.group(1)!r} but SQLite gives {got!r}")
+        else:
+            nviol += 1
+            R.violation({"engine": "mirsym", "kernel": "K-sqlstr", "kind": "string_value", "probe": True},
+                        f"K-sqlstr: the string literal {txt!r} is emitted as {sql[:80]!r}; SQLite gives {got!r}", {"prql": prog, "sql": sql, "text": txt})
+    R.cov["concrete_probes_validated"] = R.cov.get("concrete_probes_validated", 0) + nval
     R.sample({"kernel": "K-sqlstr", "exits": len(exits2), "queries": nq, "property": f"for every string of <= {L} characters (every code point) the text written for a "
               "string literal is exactly one '...' token of a doubled-quote-only SQL lexer and denotes that string; no panic exit reachable", "wall_s": round(time.time() - t0, 2)})
     R.cov.setdefault("bounds", {})["K-sqlstr"] = (f"strings of at most {L} characters, every code point, symbolic length; translate_literal (String, RawString) from the prqlc MIR, "
